@@ -110,3 +110,55 @@ def _replay(model, contract):
 
 for _c in CONTRACTS.values():
     _c["replay_hook"] = _replay
+
+
+# ---- hard targets (C15: "meets every hard target the starting point met"): a target measurable evaluates to +infinity exactly when the
+# target is missed and to 0 otherwise, so an optimiser that only accepts improvements can never move to a point that misses a target
+# the starting point met.  Measurable.get_objective_val (the summed output, under contract above) is the ghost value VAL here.
+def _env_target(cls, fields):
+    def make(it):
+        from pyvc.interp import PyObjV
+        from pyvc.core import Opaque
+        from pyvc import source
+
+        f = {"measurable_name": "x", "pop_names": None, "weight": 1.0, "t": Opaque("years")}
+        env = {}
+        for k in fields:
+            if k == "target_type":
+                continue
+            env[k.upper()] = z3.Real(k)
+            f[k] = env[k.upper()]
+        if "target_type" in fields:
+            f["target_type"] = fields["target_type"]
+        env.update({"self": PyObjV(cls, source.load("optimization"), f), "model": Opaque("model"), "baseline": z3.Real("baseline"), "BASE": z3.Real("baseline")})
+        return env
+
+    return make
+
+
+_INF = "float('inf')"
+for _name, _cls, _fields, _req, _missed in (
+        ("at_most", "AtMostMeasurable", {"threshold": None}, [], "VAL > THRESHOLD"),
+        ("at_least", "AtLeastMeasurable", {"threshold": None}, [], "VAL < THRESHOLD"),
+        ("increase_by_fraction", "IncreaseByMeasurable", {"increase": None, "target_type": "frac"}, ["BASE > 0"], "VAL < (1 + INCREASE) * BASE"),
+        ("increase_by_amount", "IncreaseByMeasurable", {"increase": None, "target_type": "abs"}, [], "VAL < BASE + INCREASE"),
+        ("decrease_by_fraction", "DecreaseByMeasurable", {"decrease": None, "target_type": "frac"}, ["BASE > 0"], "VAL > (1 - DECREASE) * BASE"),
+        ("decrease_by_amount", "DecreaseByMeasurable", {"decrease": None, "target_type": "abs"}, [], "VAL > BASE - DECREASE")):
+    CONTRACTS["optimization:%s.get_objective_val#%s" % (_cls, _name)] = dict(
+        schema=schema, make_env=_env_target(_cls, _fields), ghost_params={"VAL": "real"}, call_stubs={"Measurable.get_objective_val": "VAL"},
+        requires=_req,
+        ensures=[("C15.a_missed_target_scores_infinity", "implies(%s, result == %s)" % (_missed, _INF)),
+                 ("C15.a_met_target_scores_zero", "implies(not (%s), result == 0)" % _missed)],
+        defined_props=["C15"])
+
+for _cls, _w in (("MinimizeMeasurable", 1), ("MaximizeMeasurable", -1)):
+    CONTRACTS["optimization:%s.__init__" % _cls] = dict(
+        schema=schema, make_env=(lambda c: (lambda it: {"self": __import__("pyvc.interp", fromlist=["PyObjV"]).PyObjV(c, __import__("pyvc.source", fromlist=["load"]).load("optimization"), {}),
+                                                    "measurable_name": "x", "t": 2020.0, "pop_names": None}))(_cls),
+        call_stubs={"sc.promotetoarray": (lambda it, t: [t])},
+        ensures=[("C15.%s_enters_the_objective_with_weight_%s" % ("a_quantity_to_minimise" if _w == 1 else "a_quantity_to_maximise", "plus_one" if _w == 1 else "minus_one"), "self.weight == %d and self.measurable_name == 'x'" % _w)],
+        defined_props=["C15"])
+
+CONTRACTS["optimization:Measurable.eval"] = dict(
+    schema=schema, make_env=_env_target("Measurable", {"weight": None}), ghost_params={"VAL": "real"}, call_stubs={"self.get_objective_val": "VAL"},
+    ensures=[("C15.contribution_is_weight_times_the_summed_output", "result == WEIGHT * VAL")], defined_props=["C15"])
